@@ -35,7 +35,12 @@ def datafit_spec_and_target(draw, fam, X):
         if fam == "Huber":
             spec["delta"] = draw(gen.pos_float(-1, 1))
         if fam == "WeightedQuadratic":
-            spec["sample_weights"] = [draw(st.integers(1, 40)) / 10. for _ in range(n)]
+            # fractional weights around 1, or frequency-like counts (mean well above 2: a coordinate step that
+            # ignores them overshoots by more than the factor 2 that coordinate descent tolerates)
+            if draw(st.booleans()):
+                spec["sample_weights"] = [draw(st.integers(1, 40)) / 10. for _ in range(n)]
+            else:
+                spec["sample_weights"] = [float(draw(st.integers(1, 12))) for _ in range(n)]
         return spec, y
     if fam in ("Logistic", "LogisticGroup", "QuadraticSVC"):
         if draw(st.booleans()):
